@@ -79,3 +79,16 @@ impl LuaIndex for LuaFlowIndex {
         self.signature_cast_cache.clear();
     }
 }
+
+/// Verification hook (feature `verif-hooks`, off by default): entry count of every container
+/// of this index, so that tests can observe growth of indexed state.
+#[cfg(feature = "verif-hooks")]
+impl LuaFlowIndex {
+    pub fn verif_sizes(&self) -> Vec<(&'static str, usize)> {
+        vec![
+            ("flow.file_flow_tree", self.file_flow_tree.len()),
+            ("flow.signature_cast_cache", self.signature_cast_cache.len()),
+            ("flow.signature_cast_cache.entries", self.signature_cast_cache.values().map(|m| m.len()).sum::<usize>()),
+        ]
+    }
+}
